@@ -259,7 +259,8 @@ PROPS = {
     "C20": dict(
         thorough_scale=4, run=native_both_profiles, level=EXPL, technique="recording and fault-injecting inner objects at the trait boundary; per-round differential against an oracle computed from the pre-update terminal read; bit-exact twin stand-alone CommandPID with identical wiring; exhaustive single-round grids",
         rule="two exhaustive single-round grids (actuator 384 cells: own/partner state and command present or absent, linked or not, stamp order, inner accept/reject/update-error; encoder 64 cells: getter present/absent/error-1/error-2, inner update ok/error, own slots empty or filled, partner) plus three random families (actuator, encoder, pid) of 1..=32-round histories in which each round delivers a new state and/or command (all three kinds) to the external and/or own terminal or re-links / disconnects them, with scripted reject / update-error / getter present-absent-erroring; distinct = per-round sequence of (what the terminal saw, inner outcome) (+ twin output class for pid)",
-        assumptions=["observing strata (act/enc/pid-observing): the inner object reads its own and/or the connected terminal (TerminalData, State, Command, both last-request slots) from inside impl_set / update / get; every such read is permitted by the unchanged crate, must not panic, and must show what the monitor read immediately before the wrapper's update() (for the encoder only reads up to the first inner get() are compared)",
+        assumptions=["following strata (act/enc/pid-following): the wrapper's OWN terminal may receive state / command through followed getters (present or absent, never erring; stamps older / equal / newer than stored, |t| < 2^41); such data count as seen by the terminal from the wrapper's own update on (slot model + scratch pair of terminals gives the expected read); for the encoder only 'the getter's present state ends up in the own state slot' is asserted, the command slot and the no-write paths are not judged",
+                     "observing strata (act/enc/pid-observing): the inner object reads its own and/or the connected terminal (TerminalData, State, Command, both last-request slots) from inside impl_set / update / get; every such read is permitted by the unchanged crate, must not panic, and must show what the monitor read immediately before the wrapper's update() (for the encoder only reads up to the first inner get() are compared)",
                      "'data the terminal sees' is read from the real terminal with Getter<TerminalData> immediately before update() and cross-checked (actuator and PID sub-checks) against a model built from the monitor's own slot writes: mean state within 2 ulps (not asserted below 2*MIN_POSITIVE or where the f32 sum would overflow), the newer command (either on a tie), the state's timestamp when there is a state (command-only timestamp not asserted)",
                      "after a failing inner.set the actuator wrapper may either call or skip inner.update() (statement silent); exactly one inner.update() per wrapper update() otherwise",
                      "PID wrapper compared bit-exactly (canonical bits) with a stand-alone CommandPID wired like the wrapper (shared Time clock, two ConstantGetters, PID following the command getter); the PID law itself is C11's job",
